@@ -15,7 +15,9 @@ TlsTails == << <<>>, SubSeq(TlsPool[1], 1, 7), <<22, 3, 3>>, <<22, 3, 3, 65, 1>>
                EncRecordRaw(22, 771, <<99, 0, 0, 0>>), EncRecordRaw(21, 771, <<>>), EncRecordRaw(7, 771, <<1>>) >>
 DtlsPool == << EncDtlsRecord(22, 65277, 0, <<0, 0, 1>>, EncDtlsHs(14, 0, 1, 0, 0, <<>>)),
                EncDtlsRecord(20, 65277, 0, <<0, 0, 2>>, <<1>>), EncDtlsRecord(21, 65277, 1, <<0, 0, 0>>, <<2, 40>>),
-               EncDtlsRecord(22, 65277, 1, <<0, 0, 1>>, EncDtlsHs(11, 300, 2, 100, 3, <<7, 8, 9>>)) >>
+               EncDtlsRecord(22, 65277, 1, <<0, 0, 1>>, EncDtlsHs(11, 300, 2, 100, 3, <<7, 8, 9>>)),
+               EncDtlsRecord(20, 65277, 4660, <<0, 0, 0>>, <<1>>), EncDtlsRecord(21, 65277, 258, <<43981, 1, 2>>, <<1, 0>>),
+               EncDtlsRecord(21, 65277, 65535, <<65535, 65535, 65535>>, <<2, 40>>) >>
 DtlsTails == << <<>>, SubSeq(DtlsPool[1], 1, 17), <<22, 254, 253, 0, 0, 0, 0, 0, 0, 0, 0, 65, 1>>, <<1, 2, 3>>,
                 EncDtlsRecord(23, 65277, 0, <<0, 0, 3>>, <<1>>), EncDtlsRecord(22, 65277, 0, <<0, 0, 3>>, <<>>) >>
 
